@@ -215,21 +215,9 @@ func applyEdit(root string, e edit) error {
 		st := info.Sys().(*syscall.Stat_t)
 		return os.Chtimes(p, time.Unix(st.Atim.Sec, st.Atim.Nsec), time.Unix(st.Mtim.Sec, st.Mtim.Nsec))
 	}
-	switch e.Op {
-	case "content", "stale": // new content, other size; modification time two seconds later
-		info, err := os.Lstat(p)
-		if err != nil {
-			return err
-		}
-		if err := os.WriteFile(p, []byte("edited content of another size"), info.Mode().Perm()); err != nil {
-			return err
-		}
-		return os.Chtimes(p, time.Now(), info.ModTime().Add(2*time.Second))
-	case "mtime": // same size, same inode, same mode: only the modification time (and the bytes) differ
-		info, err := os.Lstat(p)
-		if err != nil {
-			return err
-		}
+	// rewriteInPlace overwrites the file with other bytes of the same length
+	// through the existing inode (no rename, no truncation)
+	rewriteInPlace := func(info os.FileInfo) error {
 		f, err := os.OpenFile(p, os.O_WRONLY, 0)
 		if err != nil {
 			return err
@@ -240,11 +228,47 @@ func applyEdit(root string, e edit) error {
 		}
 		_, err = f.WriteAt(b, 0)
 		f.Close()
+		return err
+	}
+	mtimeDelta := map[string]time.Duration{"mtime+1ns": time.Nanosecond, "mtime+999us": 999 * time.Microsecond,
+		"mtime+1s": time.Second, "mtime-1ns": -time.Nanosecond}
+	modeBit := map[string]os.FileMode{"mode1": 0o400, "mode2": 0o200, "mode3": 0o100, "mode4": 0o040, "mode5": 0o020,
+		"mode6": 0o010, "mode7": 0o004, "mode8": 0o002, "mode9": 0o001}
+	if d, ok := mtimeDelta[e.Op]; ok {
+		// same length, same inode, same mode: only the modification time differs
+		// (by d from the value the scan recorded) - and the bytes
+		info, err := os.Lstat(p)
 		if err != nil {
 			return err
 		}
+		if err := rewriteInPlace(info); err != nil {
+			return err
+		}
+		st := info.Sys().(*syscall.Stat_t)
+		return os.Chtimes(p, time.Unix(st.Atim.Sec, st.Atim.Nsec), time.Unix(st.Mtim.Sec, st.Mtim.Nsec).Add(d))
+	}
+	if bit, ok := modeBit[e.Op]; ok {
+		// exactly one permission bit differs; modification time as scanned
+		info, err := os.Lstat(p)
+		if err != nil {
+			return err
+		}
+		if err := os.Chmod(p, info.Mode().Perm()^bit); err != nil {
+			return err
+		}
+		return keepTimes(info)
+	}
+	switch e.Op {
+	case "content", "stale": // new content, other size; modification time two seconds later
+		info, err := os.Lstat(p)
+		if err != nil {
+			return err
+		}
+		if err := os.WriteFile(p, []byte("edited content of another size"), info.Mode().Perm()); err != nil {
+			return err
+		}
 		return os.Chtimes(p, time.Now(), info.ModTime().Add(2*time.Second))
-	case "size": // appended in place, modification time restored: only the size differs
+	case "size+1": // one byte appended in place, modification time restored: only the size differs
 		info, err := os.Lstat(p)
 		if err != nil {
 			return err
@@ -253,26 +277,32 @@ func applyEdit(root string, e edit) error {
 		if err != nil {
 			return err
 		}
-		_, err = f.WriteString("+appended")
+		_, err = f.WriteString("+")
 		f.Close()
 		if err != nil {
 			return err
 		}
 		return keepTimes(info)
-	case "mode": // only the permission bits differ
+	case "size-1": // one byte cut off in place, modification time restored
 		info, err := os.Lstat(p)
 		if err != nil {
 			return err
 		}
-		return os.Chmod(p, info.Mode().Perm()^0o044)
-	case "id": // replaced by another file of the same size, mode and modification time: only the file id differs
+		if info.Size() < 1 {
+			return fmt.Errorf("size-1 on an empty file")
+		}
+		if err := os.Truncate(p, info.Size()-1); err != nil {
+			return err
+		}
+		return keepTimes(info)
+	case "id": // replaced (rename) by a file of identical content, size, mode and modification time: only the file id differs
 		info, err := os.Lstat(p)
 		if err != nil {
 			return err
 		}
-		b := make([]byte, info.Size())
-		for i := range b {
-			b[i] = 'r'
+		b, err := os.ReadFile(p)
+		if err != nil {
+			return err
 		}
 		tmp := p + ".verif-replacement"
 		if err := os.WriteFile(tmp, b, info.Mode().Perm()); err != nil {
@@ -285,11 +315,21 @@ func applyEdit(root string, e edit) error {
 			return err
 		}
 		return keepTimes(info)
-	case "retarget":
+	case "retarget": // a target of the same length differing in its last byte
+		old, err := os.Readlink(p)
+		if err != nil {
+			return err
+		}
+		nb := []byte(old)
+		if nb[len(nb)-1] == 'x' {
+			nb[len(nb)-1] = 'y'
+		} else {
+			nb[len(nb)-1] = 'x'
+		}
 		if err := os.Remove(p); err != nil {
 			return err
 		}
-		return os.Symlink("retargeted", p)
+		return os.Symlink(string(nb), p)
 	case "newchild": // a new file inside a directory (the path names the new file)
 		return os.WriteFile(p, []byte("new child"), 0o644)
 	case "tofile": // a directory or link replaced by a file
@@ -857,7 +897,7 @@ func allPaths(n *Node, prefix []string, f func(path []string, n *Node)) {
 
 // editsFor lists every single external edit applicable to tree0 (and, for
 // creations, to the paths at which the plan creates content).
-func editsFor(tc *tCase) []edit {
+func editsFor(tc *tCase, modeOps []string) []edit {
 	var out []edit
 	allPaths(tc.Tree0, nil, func(path []string, n *Node) {
 		if len(path) == 0 {
@@ -866,7 +906,8 @@ func editsFor(tc *tCase) []edit {
 		var ops []string
 		switch n.K {
 		case "file":
-			ops = []string{"content", "mtime", "size", "mode", "id", "stale", "todir", "tolink", "delete"}
+			ops = append([]string{"content", "mtime+1ns", "mtime+999us", "mtime+1s", "mtime-1ns", "size+1", "size-1", "id",
+				"stale", "todir", "tolink", "delete"}, modeOps...)
 		case "link":
 			ops = []string{"retarget", "tofile", "todir", "delete"}
 		case "dir":
@@ -937,9 +978,32 @@ func runEdits(c *vlib.Ctx) error {
 		shapes = []sh{{"edit", 1, true}, {"small", 1, true}, {"wide", 1, false}, {"two", argInt(c, "two", 8), false}}
 		nRandom = argInt(c, "rand", 3000)
 	}
+	allModeOps := []string{"mode1", "mode2", "mode3", "mode4", "mode5", "mode6", "mode7", "mode8", "mode9"}
+	modeOps := []string{"mode3", "mode5", "mode7"} // the driver's own enumeration in the quick tier: one bit per class
+	if c.Thorough() {
+		modeOps = allModeOps
+	}
 	var jobs []*job
 	var names []string
+	// spec -> code: every edit case exported by the model (FSTransition_Beh, shape "edit", all nine mode bits)
+	seenBeh := map[string]bool{}
+	for _, b := range c.ReadBehaviours() {
+		tc := &tCase{Shape: "edit", Tree0: nodeFromModel(b["tree0"]), Target: nodeFromModel(b["target"]), Fault: fault{Kind: "none"}}
+		var es []edit
+		vlib.Decode(b["edits"], &es)
+		jb := editJob(c, tc, es)
+		key := caseKey(tc) + fmt.Sprint(es)
+		if seenBeh[key] {
+			continue
+		}
+		seenBeh[key] = true
+		jobs = append(jobs, jb)
+	}
+	c.SetExtra("behaviours_replayed", len(seenBeh))
 	for _, sh := range shapes {
+		if sh.name == "edit" && len(seenBeh) > 0 && !sh.pairs {
+			continue // covered by the exported behaviours
+		}
 		cases := baseCases(sh.name)
 		off := c.Rand.Intn(sh.every)
 		n := 0
@@ -951,7 +1015,7 @@ func runEdits(c *vlib.Ctx) error {
 			if (n+off)%sh.every != 0 {
 				continue
 			}
-			es := editsFor(tc)
+			es := editsFor(tc, modeOps)
 			for _, e := range es {
 				jobs = append(jobs, editJob(c, tc, []edit{e}))
 			}
@@ -970,7 +1034,7 @@ func runEdits(c *vlib.Ctx) error {
 	for i := 0; i < nRandom; i++ {
 		tc := randomCase(c)
 		tc.Mode.Owner = false
-		es := editsFor(tc)
+		es := editsFor(tc, modeOps)
 		if len(es) == 0 {
 			continue
 		}
@@ -1018,4 +1082,35 @@ func stripIDs(n map[string]any) {
 			}
 		}
 	}
+}
+
+// nodeFromModel converts a tree exported by the model (file digest names are the
+// content names; empty contents may arrive as an empty array) into a Node.
+func nodeFromModel(v any) *Node {
+	m, ok := v.(map[string]any)
+	if !ok {
+		return nil
+	}
+	switch m["k"] {
+	case "nil":
+		return nil
+	case "dir":
+		n := nDir(map[string]*Node{})
+		if c, ok := m["c"].(map[string]any); ok {
+			for k, ch := range c {
+				n.C[k] = nodeFromModel(ch)
+			}
+		}
+		return n
+	case "file":
+		d, _ := m["d"].(string)
+		x, _ := m["x"].(bool)
+		return nFile(d, x)
+	case "link":
+		t, _ := m["t"].(string)
+		return nLink(t)
+	case "untracked":
+		return nFifo()
+	}
+	return nil
 }
